@@ -1030,7 +1030,7 @@ func (c *seqCase) run() {
 func runSequential(e *core.Env) {
 	rec := e.Rec
 	rec.Rule("sequential: one case = 6..24 lock-step moves over one pipe by one writer and one reader (a helper goroutine per blocking call, synctest.Wait between moves): transfers with buffers 0..n+ (reader or writer first, zero-length writes), read/write timeouts with k of n bytes consumed, deadlines set / zeroed / moved / re-armed while a call is pending, WriteTo ended by CloseWrite, deadline, CloseRead or its writer's short write, closes with a call pending and with nothing pending followed by probes of every affected call and a transfer in the reverse direction; each outcome (n, error class, bytes, virtual instant) is predicted by a model; class = (move, variant, context) that completed with the predicted outcome")
-	n := e.N(3000, 60000)
+	n := e.N(3000, 50000)
 	core.Parallel(e, "sequential", n, 16, func(i int) {
 		r := core.NewRNG(e.Seed, "c15.seq", i)
 		rec.Begin("sequential", i, "")
